@@ -303,6 +303,8 @@ def solve_obligation(ob, timeout_ms, use_cvc5=True):
 
 
 class IncSolver:
+    n_models = 0
+
     """obligations of one path in emission order: the path condition only grows, so one incremental
     solver is used; each goal is checked under exactly the path condition it was emitted with"""
 
@@ -328,10 +330,13 @@ class IncSolver:
         if r == z3.sat:
             res = {'status': 'failed', 'backend': 'z3'}
             try:
-                m = self.s.model()
-                res['model'] = {str(d): str(m[d])[:200] for d in m.decls() if '!' not in d.name()}
-                from .replay import concretize
-                res['inputs'] = concretize(m)
+                # models are concretised for the first few failures only (it is costly)
+                if IncSolver.n_models < 6:
+                    IncSolver.n_models += 1
+                    m = self.s.model()
+                    res['model'] = {str(d): str(m[d])[:200] for d in m.decls() if '!' not in d.name()}
+                    from .replay import concretize
+                    res['inputs'] = concretize(m)
             except Exception:  # noqa: BLE001
                 pass
             self.s.pop()
